@@ -3,21 +3,6 @@ import os, k1, vlib
 from units import atomic_list
 LEVEL = "proof"
 
-class _Keyed:
-    """One specific key for every manifestation of the known defect (try_lock_checking touches the
-    link word of a node that was handed back meanwhile)."""
-    def __init__(self, chk):
-        self.__dict__["_c"] = chk
-    def __getattr__(self, n):
-        return getattr(self._c, n)
-    def __setattr__(self, n, v):
-        setattr(self._c, n, v)
-    def violation(self, key, replay_path, no_input=False, text=""):
-        if key.endswith("/monitor") and "touched after it was handed back" in text:
-            m = __import__("re").search(r"(rest|self) ([CLS])\.", text)
-            key = "atomic_list/touched-after-hand-back/%s:%s" % (m.group(1), m.group(2)) if m else "atomic_list/touched-after-hand-back"
-        return self._c.violation(key, replay_path, no_input, text)
-
 def run(chk, replay=None):
     chk.cov["rule"] = "K1: schedules with <= bound preemptions + seeded random; distinct = distinct projected traces"
     if not os.environ.get("VERIF_DEV_SKIP_PROOF") and os.path.exists(os.path.join(vlib.COQ, "Properties_C15_list.v")):
@@ -29,4 +14,4 @@ def run(chk, replay=None):
         else:
             p = chk.replay_file("proof", {"kind": "proof-obligation", "failed": r.get("failed", ""), "log_tail": r["log"][-1500:]})
             chk.violation("proof:C15_list", p, no_input=True, text=r.get("failed", "")[:300])
-    k1.run_unit(_Keyed(chk), atomic_list.AtomicList())
+    k1.run_unit(atomic_list.Keyed(chk), atomic_list.AtomicList())
